@@ -536,10 +536,10 @@ def property_fails(case, code_img, bpn, ppn, res, focus=None, budget=40):
 
 def run(ctx):
     r = ctx.rng
-    n = ctx.n(900, 9000)
+    n = ctx.n(3000, 30000)
     corpus = corpus_cases()
     cases = corpus + [gen_case(ctx, kind=KINDS[i % len(KINDS)] if i < 3 * len(KINDS) else None) for i in range(n)] \
-        + [gen_case(ctx, kind="uniform", dyadic=True) for _ in range(ctx.n(250, 2500))]
+        + [gen_case(ctx, kind="uniform", dyadic=True) for _ in range(ctx.n(800, 6000))]
     cov = common.LineCov(["persim/images.py", "persim/images_weights.py"])
     reals = []
     for idx, case in enumerate(cases):
@@ -585,7 +585,7 @@ def run(ctx):
     answers = ask(lines)
     # compare
     pi = 0
-    pix_budget = ctx.n(160, 1600)
+    pix_budget = ctx.n(500, 5000)
     for ci, (case, (st, v, path, bpn, ppn, res)) in enumerate(zip(cases, reals)):
         code = ("err:" + v) if st == "err" else common.tolist(v)
         nt = st == "ok" and nontrivial(case, bpn, ppn)
@@ -678,7 +678,7 @@ def anchored_only(cov):
 def density_stream(ctx):
     """[T] integrate the kernel DENSITY numerically over random pixels (scipy dblquad) and compare with the pixel (1e-6)"""
     r = ctx.rng
-    target = ctx.n(16, 64)
+    target = ctx.n(30, 120)
     done = 0
     guard = 0
     while done < target and guard < 40 * target:
